@@ -98,6 +98,14 @@ def run_trace(tid, shape, events):
     return run_events(tid, shape, events, obj, joy, cap)
 
 
+NREC = [0]
+try:
+    raise ValueError("an exception whose traceback a log record may carry")
+except ValueError:
+    EXC_INFO = sys.exc_info()
+DECOYS = []
+
+
 def make_object(kind, shape, joy):
     obj = None
     # the same object can be asked for in several ways: positional / keyword arguments, documented defaults left out,
@@ -105,6 +113,12 @@ def make_object(kind, shape, joy):
     p = shape["period"]
     secs = p // 64 if p % 64 == 0 and p > 0 else p / 64.0
     if kind == "toggle":
+        # another debounced Toggle on the very same button, with another period, made earlier (and left alone)
+        if len(DECOYS) % 2 == 0:
+            DECOYS.append(Toggle(joy, 3, (p + 5) / 64.0))
+        else:
+            DECOYS.append(None)
+        del DECOYS[:-2]
         obj = Toggle(joy, 3) if p == 0 else Toggle(joy, 3, secs) if p % 2 else Toggle(joy, 3, debounce_period=secs)
     elif kind == "bd":
         obj = ButtonDebouncer(joy, 3) if p == 32 else ButtonDebouncer(joy, 3, period=secs) if p % 2 else ButtonDebouncer(joy, 3, secs)
@@ -139,7 +153,9 @@ def run_events(tid, shape, events, obj, joy, cap):
             elif k == "bdset":
                 obj.set_debounce_period(ev["p"] / 64.0)
             elif k == "rec":
-                rec = logging.LogRecord("x", ev["lvl"], __file__, 1, "msg", None, None)
+                # (every third record carries exception information, as logger.exception() / exc_info=True produce)
+                NREC[0] += 1
+                rec = logging.LogRecord("x", ev["lvl"], __file__, 1, "msg", None, EXC_INFO if NREC[0] % 3 == 0 else None)
                 out = {"r": bool(obj.filter(rec))}
             elif k == "reset":
                 obj.reset()
